@@ -111,6 +111,41 @@ impl C04 {
                     return;
                 }
             }
+            // (a2) a stranger signs and names token accounts of their own as the destination of whatever is paid out
+            {
+                const PAYOUT_SLOTS: &[&str] = &["token_owner_account_a", "token_owner_account_b", "reward_owner_account", "token_destination_a", "token_destination_b", "destination_token_account"];
+                let mut f = base.clone();
+                let mut ixn = v.ix.clone();
+                ixn.accounts[i].pubkey = attacker;
+                ixn.accounts[i].is_signer = true;
+                let mut redirected = 0;
+                for (n, ps) in PAYOUT_SLOTS.iter().enumerate() {
+                    let Some(pi) = c.idx(ps) else { continue };
+                    let cur = v.ix.accounts[pi].pubkey;
+                    let Some(acc) = v.pre.get(&cur) else { continue };
+                    if acc.data.len() < 165 || !(acc.owner == ix::tok() || acc.owner == ix::tok22()) {
+                        continue;
+                    }
+                    // same mint, same encoding, empty, owned by the attacker
+                    let mut d = (*acc.data).clone();
+                    d[32..64].copy_from_slice(attacker.as_ref());
+                    d[64..72].copy_from_slice(&0u64.to_le_bytes());
+                    d[72..76].copy_from_slice(&0u32.to_le_bytes()); // no delegate
+                    let k = scratch_key(salt, 4100 + n as u64);
+                    f.put(k, Account::new(acc.lamports, d, acc.owner));
+                    ixn.accounts[pi].pubkey = k;
+                    redirected += 1;
+                }
+                if redirected > 0 {
+                    let r = exec(&f, ixn);
+                    cov.eval(format!("{}|{}|stranger_with_own_payout_accounts", name, slot));
+                    self.cell(format!("{} / {} / stranger signs, payout to the stranger's own accounts", name, slot), !r.ok);
+                    if r.ok {
+                        out.push(v04("wrong_signer_accepted", idx, format!("{}: succeeded for a stranger who signed as `{}` and named token accounts of their own for the payout", name, slot)));
+                        return;
+                    }
+                }
+            }
             // (b) the right key without a signature (only meaningful if the key signs nowhere else in the instruction)
             let signs_elsewhere = v.ix.accounts.iter().enumerate().any(|(j, mm)| j != i && mm.pubkey == right && mm.is_signer);
             if !signs_elsewhere {
@@ -294,6 +329,33 @@ impl C04 {
                 if r.ok {
                     out.push(v04("empty_token_account_accepted", idx, format!("{}: succeeded for the owner of a token account holding 0 position tokens", name)));
                     return;
+                }
+                // (f) the attacker holds one token of some OTHER mint (say the token of a dust position of their own)
+                // and presents that account for the victim's position
+                {
+                    let other_mint = scratch_key(salt, 4005);
+                    let mut f = base.clone();
+                    let len = v.pre.data(&ta_key).map(|d| d.len()).unwrap_or(165).max(165);
+                    let mut d = vec![0u8; len];
+                    d[0..32].copy_from_slice(other_mint.as_ref());
+                    d[32..64].copy_from_slice(attacker.as_ref());
+                    d[64..72].copy_from_slice(&1u64.to_le_bytes());
+                    d[108] = 1;
+                    if len > 165 {
+                        d[165] = 2;
+                    }
+                    f.put(fake, Account::new(world::rent_min(len), d, ta_owner));
+                    let mut ixn = v.ix.clone();
+                    ixn.accounts[i].pubkey = attacker;
+                    ixn.accounts[i].is_signer = true;
+                    ixn.accounts[ti].pubkey = fake;
+                    let r = exec(&f, ixn);
+                    cov.eval(format!("{}|{}|token_of_another_mint", name, slot));
+                    self.cell(format!("{} / {} / token account holding 1 token of another mint", name, slot), !r.ok);
+                    if r.ok {
+                        out.push(v04("foreign_position_token_accepted", idx, format!("{}: succeeded for a stranger presenting a token account that holds one token of another mint", name)));
+                        return;
+                    }
                 }
                 // (e) the attacker's account claims 1 position token but is not owned by a token program:
                 // a stranger program, and look-alikes of the two token programs (same leading and trailing bytes)
